@@ -23,6 +23,11 @@ func allLayersHaveSameTypeRateChannelsExtType(c *mpeg4audio.StreamMuxConfig) boo
 				continue
 			}
 
+			// useSameConfig: the layer shares the configuration of the previous one
+			if l.AudioSpecificConfig == nil {
+				continue
+			}
+
 			if l.AudioSpecificConfig.Type != typ ||
 				l.AudioSpecificConfig.SampleRate != rate ||
 				l.AudioSpecificConfig.ChannelConfig != channelConfig ||
